@@ -230,8 +230,11 @@ def run(ctx, pid):
     pool.shutdown()
     rs = summ["replay"]
     if scen and rs["realised"] == 0:
-        raise Inconclusive("no model behaviour could be realised on the real allocator (%d tried): %s" %
-                           (len(scen), rs.get("why")))
+        # the code follows none of the model's schedules: that is conformance drift (reported), not a verdict and
+        # not a reason to stop - the traces of the free-running runs and of the abandoned replays are still judged
+        ctx.drift += len(scen)
+        log("CONFORMANCE-DRIFT property=%s no model behaviour could be realised on the real allocator (%d tried): %s" %
+            (pid if "pid" in dir() else "C12", len(scen), (rs.get("why") or [""])[0]))
     if rs["unrealised"]:
         ctx.notes.append("unrealised schedules: %d of %d; first: %s" % (rs["unrealised"], len(scen), (rs.get("why") or [""])[0]))
         log("NOTE property=%s %d of %d model behaviours were not followed by the code (counted, not judged): %s" %
